@@ -13,12 +13,12 @@ from .common import case, ordinal_instance, strict, rand_perm
 
 ID = "C04"
 RULE = ("exhaustive: every set of distinct strict orders over 3 alternatives (2^6 subsets) and over 4 alternatives "
-        "with n <= 3 (quick) / n <= 5 (thorough) distinct orders, each in two storage orders (sorted, reversed) plus "
+        "with n <= 4 (quick) / n <= 5 (thorough) distinct orders, each in two storage orders (sorted, reversed) plus "
         "one random shuffle; random: swap-walk single-crossing sequences (m <= 6, n <= 7) shuffled, with and without "
         "one off-sequence order, uniformly random sets of orders; large planted single-crossing profiles (m <= 12, "
         "n <= 40) and large negatives (planted profile + embedded refuted core). "
         "non-trivial = at least 3 distinct orders")
-EXHAUSTIVE = {"quick": "all subsets of the 6 orders over 3 alternatives; all sets of <= 3 distinct orders over 4 "
+EXHAUSTIVE = {"quick": "all subsets of the 6 orders over 3 alternatives; all sets of <= 4 distinct orders over 4 "
                        "alternatives; x {sorted, reversed, shuffled} storage order",
               "thorough": "all subsets of the 6 orders over 3 alternatives; all sets of <= 5 distinct orders over 4 "
                           "alternatives; x {sorted, reversed, shuffled} storage order"}
@@ -120,15 +120,14 @@ def generate(tier, seed):
     # ---- exhaustive m = 4
     alts4 = [1, 2, 3, 4]
     P4 = [list(p) for p in itertools.permutations(alts4)]
-    nmax = 3 if quick else 5
+    nmax = 4 if quick else 5
     for k in range(1, nmax + 1):
         for sub in itertools.combinations(P4, k):
             out.extend(storage_variants(rng, alts4, sub, exh=1))
-    if quick:
-        for k, cnt in ((4, 500), (5, 300), (6, 100)):
-            for _ in range(cnt):
-                sub = rng.sample(P4, k)
-                out.extend(storage_variants(rng, alts4, sub, sampled=1))
+    for k, cnt in ((5, 600), (6, 300), (7, 100)) if quick else ((6, 4000), (7, 1500)):
+        for _ in range(cnt):
+            sub = rng.sample(P4, k)
+            out.extend(storage_variants(rng, alts4, sub, sampled=1))
     # ---- random small: swap walks, shuffled, +- one off-sequence order; uniformly random sets
     nrand = 700 if quick else 8000
     for i in range(nrand):
